@@ -875,9 +875,13 @@ def rule_G7(ctx):
                         and any(isinstance(t, ast.Name) and t.id == v for t in x.targets)]
                 if any(not (set(fg.atoms(x)) - base) and _in_body_directly(loop, x) for x in defs):
                     continue  # (re)assigned unconditionally on every iteration
+                if any(isinstance(y, ast.Name) and y.id == v for x in defs for y in ast.walk(x.value)):
+                    continue  # some assignment builds on the previous value: an accumulator
                 cond = set(fg.atoms(d)) - base
                 if not cond:
                     continue
+                if any(v in _names_in(str(a[1])) for a in cond if len(a) > 1):
+                    continue  # "initialise on first use": the condition is about the local itself
                 n += 1
                 inst = (f.qualname, untag(v), untag(norm_src(loop))[:60])
                 stale = None
@@ -905,3 +909,71 @@ def rule_G7(ctx):
 
 def _in_body_directly(loop, stmt):
     return any(stmt is s for s in loop.body)
+
+
+# ====================================================================== M3
+def rule_M3(ctx):
+    """A context that is evaluated for several transitions is not changed by the first one: a
+    function that merges into one of its parameters (merge_dicts writes into its first
+    argument) is, when called inside a loop, handed a fresh copy on every iteration - never a
+    value that lives across iterations.  Otherwise what one transition publishes is visible to
+    the criteria and publishes of the next transition of the same task."""
+    res = RuleResult("M3", "a function that merges into a parameter receives a fresh copy at "
+                           "every call inside a loop")
+    prog = ctx.prog
+    scope = ("conducting", "specs.native.v1.models", "specs.base")
+    funcs = [f for f in prog.all_functions() if f.module.short in scope]
+    mutators = {}   # function name -> set of parameter positions (without self)
+    for f in funcs:
+        params = [p for p in f.params if p not in ("self", "cls")]
+        for c in calls_in(f.node):
+            if callee_name(c) != "merge_dicts" or not c.args:
+                continue
+            a0 = c.args[0]
+            if isinstance(a0, ast.Name) and a0.id in params:
+                # still the parameter itself: not re-bound before the call
+                rebound = any(isinstance(d, ast.Assign) and any(
+                    isinstance(t, ast.Name) and t.id == a0.id for t in d.targets)
+                    and d._ord < c._ord for d in ast.walk(f.node))
+                if not rebound:
+                    mutators.setdefault(f.name, set()).add(params.index(a0.id))
+    res.facts["functions_merging_into_a_parameter"] = sorted(mutators)
+    n = 0
+    for f in funcs:
+        for c in calls_in(f.node):
+            name = callee_name(c)
+            if name not in mutators or name == f.name:
+                continue
+            loop = c
+            while loop is not None and not isinstance(loop, (ast.For, ast.While)):
+                loop = getattr(loop, "_parent", None)
+            if loop is None:
+                continue
+            in_loop = {id(x) for x in ast.walk(loop)}
+            for i in sorted(mutators[name]):
+                arg = c.args[i] if i < len(c.args) else None
+                if arg is None:
+                    continue
+                n += 1
+                inst = (f.qualname, untag(norm_src(c))[:70], i)
+                if isinstance(arg, ast.Call) and callee_name(arg) in ("deepcopy", "copy", "dict"):
+                    res.holds(inst, "fresh copy")
+                    continue
+                if isinstance(arg, ast.Name):
+                    ds = [d for d in ast.walk(f.node) if isinstance(d, ast.Assign) and any(
+                        isinstance(t, ast.Name) and t.id == arg.id for t in d.targets)]
+                    fresh = ds and all(id(d) in in_loop and isinstance(d.value, ast.Call)
+                                       and callee_name(d.value) in ("deepcopy", "copy", "dict")
+                                       for d in ds)
+                    if fresh:
+                        res.holds(inst, "copied inside the loop")
+                        continue
+                res.violated(inst, _f(
+                    "M3", f, c, "shared argument of %s()" % name,
+                    "%s() merges into its argument %d, and inside this loop it is handed %s, "
+                    "which lives across the iterations: what one transition publishes is seen "
+                    "by the criteria and publishes of the next transition of the same task"
+                    % (name, i + 1, untag(unparse(arg))[:60])))
+    if not n:
+        res.holds(("no call of a merging function inside a loop",))
+    return res
